@@ -43,6 +43,11 @@ TEXT = {
         note="Trusts sim + controlled informers. Over-notification (waking a parent for an object it does not list) is allowed by the statement.",
         technique="bounded-exhaustive enumeration of rule sets x cluster contents on the real code, independent rule evaluator as oracle",
     ),
+    "C05": dict(
+        level="Bounded-exhaustive model checking of the pure merge functions: complete cubes of JSON triples over finite universes (10^6 quick, 10^8 thorough) are pushed through the real Merge/ApplyUpdate and compared with a reference of the documented convention, plus idempotence (no write on re-apply), purity (inputs untouched), totality (no panic) and the ApplyUpdate laws (system metadata, status, last-applied record).",
+        note="Universe depth <= 3 with 2 keys per level, lists of length <= 3; unbounded random/fuzzed inputs are not claimed.",
+        technique="bounded-exhaustive input enumeration (complete cubes over finite universes) against a reference model",
+    ),
 }
 
 PENDING_REASON = "check not built yet in this session (planned in DESIGN.md §4); no claim is made until its check runs clean on the unchanged tree"
